@@ -256,3 +256,38 @@ func VerifC06_E2_file_roundtrip() {
 	sym.Reach("C06.E2")
 	_ = fmt.Sprint
 }
+
+// C04.R-term: restoring a directory returns (nil or an error) for every subset of failing blob reads;
+// it never hangs
+func VerifC04_R_restore_faults() {
+	ctx, cas := setupWorld()
+	h := NewDirectoryOutputHandler(cas)
+	t := model.Target{Label: label.TL("p", "t"), ChangeHash: "h"}
+	out := model.NewOutput("dir", "dist")
+	root := t.GetAbsOutputPath(out)
+	var es []entry
+	switch sym.Choice("tree", 3) {
+	case 0: // flat directory
+		es = []entry{{path: "a", content: "1"}, {path: "b", content: "2"}, {path: "c", content: "3"}}
+	case 1: // one sub-directory
+		es = []entry{{path: "a", content: "1"}, {path: "sub/b", content: "2"}}
+	case 2: // nested
+		es = []entry{{path: "s1/a", content: "1"}, {path: "s1/s2/b", content: "2"}, {path: "c", content: "3"}}
+	}
+	materialise(root, es)
+	genOut, err := h.Write(ctx, t, out, nil)
+	sym.Assert(err == nil, "C04.R.setup-write")
+	must(os.RemoveAll(root))
+	nf := 1 + sym.Choice("faults_minus_1", 2)
+	sym.Faults(nf, filepath.Join(config.Global.GetWorkspaceCacheDirectory(), "cas"), "open,read")
+	lerr := h.Load(ctx, t, genOut, nil)
+	injected := sym.FaultsInjected()
+	sym.Faults(0, "", "")
+	sym.Reach("C04.R.load-returned")
+	if injected == 0 {
+		sym.Assert(lerr == nil, "C04.R.no-fault-no-error")
+		auditTree(root, es, "C04.R")
+	} else {
+		sym.Assert(lerr != nil, "C04.R.read-fault-is-reported")
+	}
+}
